@@ -173,7 +173,8 @@ func runC05(x *mc.X) {
 	w, _, cleanup := c09WorldL(backend, logger)
 	defer cleanup()
 
-	if (shape.name == "multi-valued" || shape.name == "etag+lm") && framing == "content-length" && x.Choose("after-an-unrelated-exchange", 2) == 1 {
+	unrelated := (shape.name == "multi-valued" || shape.name == "etag+lm") && framing == "content-length" && x.Choose("between-unrelated-exchanges", 2) == 1
+	if unrelated {
 		primeUnrelated(x, w)
 	}
 	var originHdr http.Header
@@ -182,7 +183,7 @@ func runC05(x *mc.X) {
 	phase, curTok := "first", "tokA"
 	answerFn(w, func(o *world.Origin, c *world.Call) (*http.Response, error) {
 		if phase != "replace" && (c.Header.Get("If-None-Match") != "" || c.Header.Get("If-Modified-Since") != "") {
-			return o.Respond(c, RS{Status: 304, NoTok: true, H: H("X-Merged", "m", "Cache-Control", "max-age=1000")}), nil
+			return o.Respond(c, RS{Status: 304, NoTok: true, H: H("X-Merged", "m", "Cache-Control", "max-age=1000", "X-Merged-List", "one", "X-Merged-List", "two", "X-Merged-List", "one")}), nil
 		}
 		body := body
 		if phase == "replace" {
@@ -246,8 +247,23 @@ func runC05(x *mc.X) {
 		}
 	}
 	checkStoreNoHop()
+	if unrelated {
+		// another resource is fetched and stored before this one is read back: whatever buffers the first store used
+		// belong to the backend now
+		saved := w.Origin.Handler
+		answer(w, RS{Status: 200, H: H("Cache-Control", "max-age=1000", "X-Other", "o")}) // a smaller entry …
+		logObs(x, "GET of another resource (stored)", get(w, "http://example.com/another-resource"))
+		answer(w, RS{Status: 200, H: H("Cache-Control", "max-age=1000", "X-Other", strings.Repeat("o", 300)), Pad: len(body) + 64}) // … and a larger one
+		logObs(x, "GET of a third resource (stored)", get(w, "http://example.com/a-third-resource"))
+		w.Origin.Handler = saved
+	}
+	had304 := false // the validation round was really answered with a 304 (the stored response has a validator)
 	checkHit := func(o *world.Obs, what string, merged bool) {
 		if o.Panic != nil || o.Err != nil {
+			return
+		}
+		if len(o.Calls) == 0 && len(o.BgCalls) == 0 && o.HdrTok != curTok {
+			x.Failf("a response served from the store is not the one stored for this resource", "%s: no origin contact, expected the stored %s, got %s", what, curTok, o)
 			return
 		}
 		if o.HdrTok != curTok || len(o.Calls) != 0 {
@@ -296,7 +312,10 @@ func runC05(x *mc.X) {
 		}
 		if merged {
 			// fields carried by the 304 replace the stored ones (C08)
-			for _, k := range []string{"X-Merged", "Date", "Cache-Control"} {
+			if l := got.Values("X-Merged-List"); had304 && strings.Join(l, "|") != "one|two|one" {
+				x.Failf("a field carried by the 304 on several lines is not replayed with all of them", "%s: X-Merged-List %q, the 304 carried [one two one]", what, l)
+			}
+			for _, k := range []string{"X-Merged", "X-Merged-List", "Date", "Cache-Control"} {
 				got.Del(k)
 				exp.Del(k)
 			}
@@ -339,6 +358,7 @@ func runC05(x *mc.X) {
 	world.Advance(secs(5))
 	o3 := get(w, U, "Cache-Control", "no-cache")
 	logObs(x, "GET no-cache (origin: 304)", o3)
+	had304 = len(o3.Calls) == 1 && o3.Calls[0].RespCode == 304
 	if o3.Err == nil && o3.Panic == nil && o3.HdrTok == "tokA" {
 		if !bytes.Equal(o3.Body, originBody) {
 			x.Failf(fmt.Sprintf("revalidated body differs from the origin body (%s)", framing), "origin %d bytes, got %d bytes", len(originBody), len(o3.Body))
